@@ -20,6 +20,8 @@ class Ctx(object):
         import contracts
         self.contracts = contracts.all_contracts(self.src)
         self.E.summaries.update(contracts.all_summaries(self.src))
+        from contracts import sections
+        sections.install_valid_summaries(self.E, self.src, self.T)
 
 
 def ctx(run):
